@@ -22,9 +22,10 @@
 (* read, every batch capped, the ticket published once the backlog that   *)
 (* was queued when the ticket was read has been exported.                  *)
 (***************************************************************************)
-EXTENDS Integers, Sequences, FiniteSets, TLC
+EXTENDS Integers, Sequences, FiniteSets, TLC, Json
 
-CONSTANTS NProd, NRec, QMax, BMax, NFlush, NShut, Budget, Variant, Dev
+CONSTANTS NProd, NRec, QMax, BMax, NFlush, NShut, Budget, Variant, Dev,
+          Hist   \* BOOLEAN: record the Level-A event log of the behaviour in `evlog` (generation runs only)
 
 Prods    == 1..NProd
 Flushers == 11..(10 + NFlush)
@@ -49,11 +50,17 @@ variables
   fate = [r \in {} |-> "x"],
   ffSnap = [f \in Flushers |-> {}], ffOK = [f \in Flushers |-> FALSE], ffRes = [f \in Flushers |-> "none"],
   sdSnap = {}, sdCalled = FALSE, sdReturned = FALSE, expSD = 0, lateCall = FALSE,
-  expFF = 0;
+  expFF = 0,
+  consumed = 0,                           \* records taken out of the queue so far
+  evlog = <<>>;                           \* Level-A events of this behaviour (Hist = TRUE only)
 
 define {
   Exported == Flat(batches)
   Accounted(r) == r \in Exported \/ (r \in DOMAIN fate /\ fate[r] \in {"dropped", "discarded"})
+}
+
+macro Log(evs) {
+  if (Hist) { evlog := evlog \o evs; }
 }
 
 macro NotifyWorker() {
@@ -68,6 +75,7 @@ procedure Notify(nt)
  N_ff:     expFF := expFF + 1;                       \* exporter->ForceFlush()
            lateCall := lateCall \/ sdReturned;
            ffOK := [f \in Flushers |-> ffOK[f] \/ (ffRes[f] = "called" /\ \A r \in ffSnap[f] : Accounted(r))];
+           Log(<<[e |-> "ExpFF"]>>);
  N_load:   ns := notified;
  N_loop:   while (nt > ns) {
              if (notified = ns) { notified := nt; } else { ns := notified; };
@@ -105,8 +113,11 @@ procedure Export()
             queue := SubSeq(queue, n + 1, Len(queue));
             overlap := overlap \/ inExport;
             lateCall := lateCall \/ sdReturned;
+            consumed := consumed + n;
+            Log(<<[e |-> "ExpBegin", batch |-> batches[Len(batches)]]>>);   \* (batches already holds the new batch)
             inExport := TRUE;
  E_end:     inExport := FALSE;                         \* exporter->Export() returns
+            Log(<<[e |-> "ExpEnd"]>>);
             if (Dev = {}) {
               backlog := IF backlog > n THEN backlog - n ELSE 0;
               if (backlog = 0) { call Notify(ft); };
@@ -143,14 +154,19 @@ fair process (prod \in Prods)
 {
  P_loop: while (s < NRec) {
  P_chk:    if (isShutdown) {
+             Log(<<[e |-> "OnEndCall", p |-> self, s |-> s, cons |-> consumed],
+                   [e |-> "OnEndRet", p |-> self, s |-> s, fate |-> "discarded", others |-> 0]>>);
              fate := fate @@ (Rec(self, s) :> "discarded");
              returned := returned \cup {Rec(self, s)};
              s := s + 1;
              goto P_loop;
+           } else {
+             Log(<<[e |-> "OnEndCall", p |-> self, s |-> s, cons |-> consumed]>>);
            };
  P_add:    if (Len(queue) < QMax) {
              queue := Append(queue, Rec(self, s));
            } else {
+             Log(<<[e |-> "OnEndRet", p |-> self, s |-> s, fate |-> "dropped", others |-> 0]>>);
              fate := fate @@ (Rec(self, s) :> "dropped");
              returned := returned \cup {Rec(self, s)};
              s := s + 1;
@@ -158,12 +174,14 @@ fair process (prod \in Prods)
            };
  P_size:   sz := Len(queue);
            if (~(sz >= QMax \div 2 \/ sz >= BMax)) {
+             Log(<<[e |-> "OnEndRet", p |-> self, s |-> s, fate |-> "queued", others |-> 0]>>);
              returned := returned \cup {Rec(self, s)};
              s := s + 1;
              goto P_loop;
            };
  P_wake:   if (Variant = "log") { forceWake := TRUE; };
  P_notify: NotifyWorker();
+           Log(<<[e |-> "OnEndRet", p |-> self, s |-> s, fate |-> "queued", others |-> 0]>>);
            returned := returned \cup {Rec(self, s)};
            s := s + 1;
          };
@@ -174,7 +192,14 @@ fair process (flush \in Flushers)
   variables my = 0, lpf = 0, budget = Budget, res = FALSE, timedout = FALSE;
 {
  F_chk:    ffSnap[self] := returned;
-           if (isShutdown) { ffRes[self] := "false"; goto F_done; } else { ffRes[self] := "called"; };
+           if (isShutdown) {
+             ffRes[self] := "false";
+             Log(<<[e |-> "FFCall", f |-> self], [e |-> "FFRet", f |-> self, r |-> FALSE]>>);
+             goto F_done;
+           } else {
+             ffRes[self] := "called";
+             Log(<<[e |-> "FFCall", f |-> self]>>);
+           };
  F_lock:   await ffm = -1; ffm := self;
  F_ticket: pending := pending + 1; my := pending;
  F_loop:   while (~res /\ budget # 0) {
@@ -195,6 +220,7 @@ fair process (flush \in Flushers)
  F_eval:     if (timedout /\ budget # Inf) { budget := budget - 1; };
            };
  F_ret:    ffRes[self] := IF notified >= my THEN "true" ELSE "false";
+           Log(<<[e |-> "FFRet", f |-> self, r |-> (notified >= my)]>>);
            ffm := -1;
  F_done:   skip;
 }
@@ -204,6 +230,7 @@ fair process (shut \in Shuts)
   variables already = FALSE;
 {
  S_call:   if (~sdCalled) { sdSnap := returned; sdCalled := TRUE; };
+           Log(<<[e |-> "SDCall", s |-> self]>>);
  S_lock:   await shm = -1; shm := self;
  S_xchg:   already := isShutdown; isShutdown := TRUE;
  S_join0:  if (~joined) {
@@ -211,8 +238,9 @@ fair process (shut \in Shuts)
  S_notify:   NotifyWorker();
  S_join:     await workerDone; joined := TRUE;
            };
- S_exp:    if (~already) { expSD := expSD + 1; lateCall := lateCall \/ sdReturned; };
+ S_exp:    if (~already) { expSD := expSD + 1; lateCall := lateCall \/ sdReturned; Log(<<[e |-> "ExpSD"]>>); };
  S_ret:    shm := -1; sdReturned := TRUE;
+           Log(<<[e |-> "SDRet", s |-> self]>>);
 }
 } *)
 \* BEGIN TRANSLATION
@@ -220,7 +248,8 @@ CONSTANT defaultInitValue
 VARIABLES pc, queue, isShutdown, forceWake, pending, notified, ffm, shm, 
           wWaiting, wSignalled, fWaiting, fSignalled, workerDone, joined, 
           batches, inExport, overlap, returned, fate, ffSnap, ffOK, ffRes, 
-          sdSnap, sdCalled, sdReturned, expSD, lateCall, expFF, stack
+          sdSnap, sdCalled, sdReturned, expSD, lateCall, expFF, consumed, 
+          evlog, stack
 
 (* define statement *)
 Exported == Flat(batches)
@@ -232,9 +261,9 @@ VARIABLES nt, ns, t, n, s1, ft, backlog, lp, s, sz, my, lpf, budget, res,
 vars == << pc, queue, isShutdown, forceWake, pending, notified, ffm, shm, 
            wWaiting, wSignalled, fWaiting, fSignalled, workerDone, joined, 
            batches, inExport, overlap, returned, fate, ffSnap, ffOK, ffRes, 
-           sdSnap, sdCalled, sdReturned, expSD, lateCall, expFF, stack, nt, 
-           ns, t, n, s1, ft, backlog, lp, s, sz, my, lpf, budget, res, 
-           timedout, already >>
+           sdSnap, sdCalled, sdReturned, expSD, lateCall, expFF, consumed, 
+           evlog, stack, nt, ns, t, n, s1, ft, backlog, lp, s, sz, my, lpf, 
+           budget, res, timedout, already >>
 
 ProcSet == {Worker} \cup (Prods) \cup (Flushers) \cup (Shuts)
 
@@ -266,6 +295,8 @@ Init == (* Global variables *)
         /\ expSD = 0
         /\ lateCall = FALSE
         /\ expFF = 0
+        /\ consumed = 0
+        /\ evlog = <<>>
         (* Procedure Notify *)
         /\ nt = [ self \in ProcSet |-> defaultInitValue]
         /\ ns = [ self \in ProcSet |-> 0]
@@ -303,22 +334,26 @@ N_chk(self) == /\ pc[self] = "N_chk"
                                fSignalled, workerDone, joined, batches, 
                                inExport, overlap, returned, fate, ffSnap, ffOK, 
                                ffRes, sdSnap, sdCalled, sdReturned, expSD, 
-                               lateCall, expFF, stack, nt, ns, t, n, s1, ft, 
-                               backlog, lp, s, sz, my, lpf, budget, res, 
-                               timedout, already >>
+                               lateCall, expFF, consumed, evlog, stack, nt, ns, 
+                               t, n, s1, ft, backlog, lp, s, sz, my, lpf, 
+                               budget, res, timedout, already >>
 
 N_ff(self) == /\ pc[self] = "N_ff"
               /\ expFF' = expFF + 1
               /\ lateCall' = (lateCall \/ sdReturned)
               /\ ffOK' = [f \in Flushers |-> ffOK[f] \/ (ffRes[f] = "called" /\ \A r \in ffSnap[f] : Accounted(r))]
+              /\ IF Hist
+                    THEN /\ evlog' = evlog \o (<<[e |-> "ExpFF"]>>)
+                    ELSE /\ TRUE
+                         /\ evlog' = evlog
               /\ pc' = [pc EXCEPT ![self] = "N_load"]
               /\ UNCHANGED << queue, isShutdown, forceWake, pending, notified, 
                               ffm, shm, wWaiting, wSignalled, fWaiting, 
                               fSignalled, workerDone, joined, batches, 
                               inExport, overlap, returned, fate, ffSnap, ffRes, 
-                              sdSnap, sdCalled, sdReturned, expSD, stack, nt, 
-                              ns, t, n, s1, ft, backlog, lp, s, sz, my, lpf, 
-                              budget, res, timedout, already >>
+                              sdSnap, sdCalled, sdReturned, expSD, consumed, 
+                              stack, nt, ns, t, n, s1, ft, backlog, lp, s, sz, 
+                              my, lpf, budget, res, timedout, already >>
 
 N_load(self) == /\ pc[self] = "N_load"
                 /\ ns' = [ns EXCEPT ![self] = notified]
@@ -328,9 +363,9 @@ N_load(self) == /\ pc[self] = "N_load"
                                 fWaiting, fSignalled, workerDone, joined, 
                                 batches, inExport, overlap, returned, fate, 
                                 ffSnap, ffOK, ffRes, sdSnap, sdCalled, 
-                                sdReturned, expSD, lateCall, expFF, stack, nt, 
-                                t, n, s1, ft, backlog, lp, s, sz, my, lpf, 
-                                budget, res, timedout, already >>
+                                sdReturned, expSD, lateCall, expFF, consumed, 
+                                evlog, stack, nt, t, n, s1, ft, backlog, lp, s, 
+                                sz, my, lpf, budget, res, timedout, already >>
 
 N_loop(self) == /\ pc[self] = "N_loop"
                 /\ IF nt[self] > ns[self]
@@ -347,9 +382,9 @@ N_loop(self) == /\ pc[self] = "N_loop"
                                 fSignalled, workerDone, joined, batches, 
                                 inExport, overlap, returned, fate, ffSnap, 
                                 ffOK, ffRes, sdSnap, sdCalled, sdReturned, 
-                                expSD, lateCall, expFF, stack, nt, t, n, s1, 
-                                ft, backlog, lp, s, sz, my, lpf, budget, res, 
-                                timedout, already >>
+                                expSD, lateCall, expFF, consumed, evlog, stack, 
+                                nt, t, n, s1, ft, backlog, lp, s, sz, my, lpf, 
+                                budget, res, timedout, already >>
 
 N_notify(self) == /\ pc[self] = "N_notify"
                   /\ fSignalled' = (fSignalled \cup fWaiting)
@@ -360,9 +395,9 @@ N_notify(self) == /\ pc[self] = "N_notify"
                                   workerDone, joined, batches, inExport, 
                                   overlap, returned, fate, ffSnap, ffOK, ffRes, 
                                   sdSnap, sdCalled, sdReturned, expSD, 
-                                  lateCall, expFF, stack, nt, ns, t, n, s1, ft, 
-                                  backlog, lp, s, sz, my, lpf, budget, res, 
-                                  timedout, already >>
+                                  lateCall, expFF, consumed, evlog, stack, nt, 
+                                  ns, t, n, s1, ft, backlog, lp, s, sz, my, 
+                                  lpf, budget, res, timedout, already >>
 
 N_ret(self) == /\ pc[self] = "N_ret"
                /\ pc' = [pc EXCEPT ![self] = Head(stack[self]).pc]
@@ -374,8 +409,9 @@ N_ret(self) == /\ pc[self] = "N_ret"
                                fSignalled, workerDone, joined, batches, 
                                inExport, overlap, returned, fate, ffSnap, ffOK, 
                                ffRes, sdSnap, sdCalled, sdReturned, expSD, 
-                               lateCall, expFF, t, n, s1, ft, backlog, lp, s, 
-                               sz, my, lpf, budget, res, timedout, already >>
+                               lateCall, expFF, consumed, evlog, t, n, s1, ft, 
+                               backlog, lp, s, sz, my, lpf, budget, res, 
+                               timedout, already >>
 
 Notify(self) == N_chk(self) \/ N_ff(self) \/ N_load(self) \/ N_loop(self)
                    \/ N_notify(self) \/ N_ret(self)
@@ -388,9 +424,10 @@ E_ticket(self) == /\ pc[self] = "E_ticket"
                                   fWaiting, fSignalled, workerDone, joined, 
                                   batches, inExport, overlap, returned, fate, 
                                   ffSnap, ffOK, ffRes, sdSnap, sdCalled, 
-                                  sdReturned, expSD, lateCall, expFF, stack, 
-                                  nt, ns, n, s1, ft, backlog, lp, s, sz, my, 
-                                  lpf, budget, res, timedout, already >>
+                                  sdReturned, expSD, lateCall, expFF, consumed, 
+                                  evlog, stack, nt, ns, n, s1, ft, backlog, lp, 
+                                  s, sz, my, lpf, budget, res, timedout, 
+                                  already >>
 
 E_size(self) == /\ pc[self] = "E_size"
                 /\ IF Dev = {}
@@ -421,9 +458,9 @@ E_size(self) == /\ pc[self] = "E_size"
                                 fWaiting, fSignalled, workerDone, joined, 
                                 batches, inExport, overlap, returned, fate, 
                                 ffSnap, ffOK, ffRes, sdSnap, sdCalled, 
-                                sdReturned, expSD, lateCall, expFF, stack, nt, 
-                                ns, t, lp, s, sz, my, lpf, budget, res, 
-                                timedout, already >>
+                                sdReturned, expSD, lateCall, expFF, consumed, 
+                                evlog, stack, nt, ns, t, lp, s, sz, my, lpf, 
+                                budget, res, timedout, already >>
 
 E_size2(self) == /\ pc[self] = "E_size2"
                  /\ n' = [n EXCEPT ![self] = Len(queue)]
@@ -433,9 +470,10 @@ E_size2(self) == /\ pc[self] = "E_size2"
                                  fWaiting, fSignalled, workerDone, joined, 
                                  batches, inExport, overlap, returned, fate, 
                                  ffSnap, ffOK, ffRes, sdSnap, sdCalled, 
-                                 sdReturned, expSD, lateCall, expFF, stack, nt, 
-                                 ns, t, s1, ft, backlog, lp, s, sz, my, lpf, 
-                                 budget, res, timedout, already >>
+                                 sdReturned, expSD, lateCall, expFF, consumed, 
+                                 evlog, stack, nt, ns, t, s1, ft, backlog, lp, 
+                                 s, sz, my, lpf, budget, res, timedout, 
+                                 already >>
 
 E_zero(self) == /\ pc[self] = "E_zero"
                 /\ IF n[self] = 0
@@ -454,9 +492,9 @@ E_zero(self) == /\ pc[self] = "E_zero"
                                 fWaiting, fSignalled, workerDone, joined, 
                                 batches, inExport, overlap, returned, fate, 
                                 ffSnap, ffOK, ffRes, sdSnap, sdCalled, 
-                                sdReturned, expSD, lateCall, expFF, t, n, s1, 
-                                ft, backlog, lp, s, sz, my, lpf, budget, res, 
-                                timedout, already >>
+                                sdReturned, expSD, lateCall, expFF, consumed, 
+                                evlog, t, n, s1, ft, backlog, lp, s, sz, my, 
+                                lpf, budget, res, timedout, already >>
 
 E_ret(self) == /\ pc[self] = "E_ret"
                /\ pc' = [pc EXCEPT ![self] = Head(stack[self]).pc]
@@ -471,14 +509,19 @@ E_ret(self) == /\ pc[self] = "E_ret"
                                fSignalled, workerDone, joined, batches, 
                                inExport, overlap, returned, fate, ffSnap, ffOK, 
                                ffRes, sdSnap, sdCalled, sdReturned, expSD, 
-                               lateCall, expFF, nt, ns, lp, s, sz, my, lpf, 
-                               budget, res, timedout, already >>
+                               lateCall, expFF, consumed, evlog, nt, ns, lp, s, 
+                               sz, my, lpf, budget, res, timedout, already >>
 
 E_consume(self) == /\ pc[self] = "E_consume"
                    /\ batches' = Append(batches, SubSeq(queue, 1, n[self]))
                    /\ queue' = SubSeq(queue, n[self] + 1, Len(queue))
                    /\ overlap' = (overlap \/ inExport)
                    /\ lateCall' = (lateCall \/ sdReturned)
+                   /\ consumed' = consumed + n[self]
+                   /\ IF Hist
+                         THEN /\ evlog' = evlog \o (<<[e |-> "ExpBegin", batch |-> batches'[Len(batches')]]>>)
+                         ELSE /\ TRUE
+                              /\ evlog' = evlog
                    /\ inExport' = TRUE
                    /\ pc' = [pc EXCEPT ![self] = "E_end"]
                    /\ UNCHANGED << isShutdown, forceWake, pending, notified, 
@@ -491,6 +534,10 @@ E_consume(self) == /\ pc[self] = "E_consume"
 
 E_end(self) == /\ pc[self] = "E_end"
                /\ inExport' = FALSE
+               /\ IF Hist
+                     THEN /\ evlog' = evlog \o (<<[e |-> "ExpEnd"]>>)
+                     ELSE /\ TRUE
+                          /\ evlog' = evlog
                /\ IF Dev = {}
                      THEN /\ backlog' = [backlog EXCEPT ![self] = IF backlog[self] > n[self] THEN backlog[self] - n[self] ELSE 0]
                           /\ IF backlog'[self] = 0
@@ -518,8 +565,8 @@ E_end(self) == /\ pc[self] = "E_end"
                                fSignalled, workerDone, joined, batches, 
                                overlap, returned, fate, ffSnap, ffOK, ffRes, 
                                sdSnap, sdCalled, sdReturned, expSD, lateCall, 
-                               expFF, t, n, s1, ft, lp, s, sz, my, lpf, budget, 
-                               res, timedout, already >>
+                               expFF, consumed, t, n, s1, ft, lp, s, sz, my, 
+                               lpf, budget, res, timedout, already >>
 
 E_again(self) == /\ pc[self] = "E_again"
                  /\ pc' = [pc EXCEPT ![self] = "E_ticket"]
@@ -528,9 +575,10 @@ E_again(self) == /\ pc[self] = "E_again"
                                  fWaiting, fSignalled, workerDone, joined, 
                                  batches, inExport, overlap, returned, fate, 
                                  ffSnap, ffOK, ffRes, sdSnap, sdCalled, 
-                                 sdReturned, expSD, lateCall, expFF, stack, nt, 
-                                 ns, t, n, s1, ft, backlog, lp, s, sz, my, lpf, 
-                                 budget, res, timedout, already >>
+                                 sdReturned, expSD, lateCall, expFF, consumed, 
+                                 evlog, stack, nt, ns, t, n, s1, ft, backlog, 
+                                 lp, s, sz, my, lpf, budget, res, timedout, 
+                                 already >>
 
 Export(self) == E_ticket(self) \/ E_size(self) \/ E_size2(self)
                    \/ E_zero(self) \/ E_ret(self) \/ E_consume(self)
@@ -545,8 +593,9 @@ W_pred1 == /\ pc[Worker] = "W_pred1"
                            fSignalled, workerDone, joined, batches, inExport, 
                            overlap, returned, fate, ffSnap, ffOK, ffRes, 
                            sdSnap, sdCalled, sdReturned, expSD, lateCall, 
-                           expFF, stack, nt, ns, t, n, s1, ft, backlog, lp, s, 
-                           sz, my, lpf, budget, res, timedout, already >>
+                           expFF, consumed, evlog, stack, nt, ns, t, n, s1, ft, 
+                           backlog, lp, s, sz, my, lpf, budget, res, timedout, 
+                           already >>
 
 W_pred2 == /\ pc[Worker] = "W_pred2"
            /\ IF queue # <<>>
@@ -557,8 +606,9 @@ W_pred2 == /\ pc[Worker] = "W_pred2"
                            fSignalled, workerDone, joined, batches, inExport, 
                            overlap, returned, fate, ffSnap, ffOK, ffRes, 
                            sdSnap, sdCalled, sdReturned, expSD, lateCall, 
-                           expFF, stack, nt, ns, t, n, s1, ft, backlog, lp, s, 
-                           sz, my, lpf, budget, res, timedout, already >>
+                           expFF, consumed, evlog, stack, nt, ns, t, n, s1, ft, 
+                           backlog, lp, s, sz, my, lpf, budget, res, timedout, 
+                           already >>
 
 W_block == /\ pc[Worker] = "W_block"
            /\ wWaiting' = TRUE
@@ -568,9 +618,9 @@ W_block == /\ pc[Worker] = "W_block"
                            ffm, shm, fWaiting, fSignalled, workerDone, joined, 
                            batches, inExport, overlap, returned, fate, ffSnap, 
                            ffOK, ffRes, sdSnap, sdCalled, sdReturned, expSD, 
-                           lateCall, expFF, stack, nt, ns, t, n, s1, ft, 
-                           backlog, lp, s, sz, my, lpf, budget, res, timedout, 
-                           already >>
+                           lateCall, expFF, consumed, evlog, stack, nt, ns, t, 
+                           n, s1, ft, backlog, lp, s, sz, my, lpf, budget, res, 
+                           timedout, already >>
 
 W_wake == /\ pc[Worker] = "W_wake"
           /\ \/ /\ wSignalled
@@ -584,9 +634,9 @@ W_wake == /\ pc[Worker] = "W_wake"
                           shm, fWaiting, fSignalled, workerDone, joined, 
                           batches, inExport, overlap, returned, fate, ffSnap, 
                           ffOK, ffRes, sdSnap, sdCalled, sdReturned, expSD, 
-                          lateCall, expFF, stack, nt, ns, t, n, s1, ft, 
-                          backlog, lp, s, sz, my, lpf, budget, res, timedout, 
-                          already >>
+                          lateCall, expFF, consumed, evlog, stack, nt, ns, t, 
+                          n, s1, ft, backlog, lp, s, sz, my, lpf, budget, res, 
+                          timedout, already >>
 
 W_clear == /\ pc[Worker] = "W_clear"
            /\ forceWake' = FALSE
@@ -595,9 +645,10 @@ W_clear == /\ pc[Worker] = "W_clear"
                            wWaiting, wSignalled, fWaiting, fSignalled, 
                            workerDone, joined, batches, inExport, overlap, 
                            returned, fate, ffSnap, ffOK, ffRes, sdSnap, 
-                           sdCalled, sdReturned, expSD, lateCall, expFF, stack, 
-                           nt, ns, t, n, s1, ft, backlog, lp, s, sz, my, lpf, 
-                           budget, res, timedout, already >>
+                           sdCalled, sdReturned, expSD, lateCall, expFF, 
+                           consumed, evlog, stack, nt, ns, t, n, s1, ft, 
+                           backlog, lp, s, sz, my, lpf, budget, res, timedout, 
+                           already >>
 
 W_chk == /\ pc[Worker] = "W_chk"
          /\ IF isShutdown
@@ -607,9 +658,9 @@ W_chk == /\ pc[Worker] = "W_chk"
                          shm, wWaiting, wSignalled, fWaiting, fSignalled, 
                          workerDone, joined, batches, inExport, overlap, 
                          returned, fate, ffSnap, ffOK, ffRes, sdSnap, sdCalled, 
-                         sdReturned, expSD, lateCall, expFF, stack, nt, ns, t, 
-                         n, s1, ft, backlog, lp, s, sz, my, lpf, budget, res, 
-                         timedout, already >>
+                         sdReturned, expSD, lateCall, expFF, consumed, evlog, 
+                         stack, nt, ns, t, n, s1, ft, backlog, lp, s, sz, my, 
+                         lpf, budget, res, timedout, already >>
 
 W_export == /\ pc[Worker] = "W_export"
             /\ stack' = [stack EXCEPT ![Worker] = << [ procedure |->  "Export",
@@ -631,8 +682,8 @@ W_export == /\ pc[Worker] = "W_export"
                             fSignalled, workerDone, joined, batches, inExport, 
                             overlap, returned, fate, ffSnap, ffOK, ffRes, 
                             sdSnap, sdCalled, sdReturned, expSD, lateCall, 
-                            expFF, nt, ns, lp, s, sz, my, lpf, budget, res, 
-                            timedout, already >>
+                            expFF, consumed, evlog, nt, ns, lp, s, sz, my, lpf, 
+                            budget, res, timedout, already >>
 
 W_next == /\ pc[Worker] = "W_next"
           /\ pc' = [pc EXCEPT ![Worker] = "W_pred1"]
@@ -640,9 +691,10 @@ W_next == /\ pc[Worker] = "W_next"
                           shm, wWaiting, wSignalled, fWaiting, fSignalled, 
                           workerDone, joined, batches, inExport, overlap, 
                           returned, fate, ffSnap, ffOK, ffRes, sdSnap, 
-                          sdCalled, sdReturned, expSD, lateCall, expFF, stack, 
-                          nt, ns, t, n, s1, ft, backlog, lp, s, sz, my, lpf, 
-                          budget, res, timedout, already >>
+                          sdCalled, sdReturned, expSD, lateCall, expFF, 
+                          consumed, evlog, stack, nt, ns, t, n, s1, ft, 
+                          backlog, lp, s, sz, my, lpf, budget, res, timedout, 
+                          already >>
 
 D_e1 == /\ pc[Worker] = "D_e1"
         /\ IF queue # <<>>
@@ -652,9 +704,9 @@ D_e1 == /\ pc[Worker] = "D_e1"
                         shm, wWaiting, wSignalled, fWaiting, fSignalled, 
                         workerDone, joined, batches, inExport, overlap, 
                         returned, fate, ffSnap, ffOK, ffRes, sdSnap, sdCalled, 
-                        sdReturned, expSD, lateCall, expFF, stack, nt, ns, t, 
-                        n, s1, ft, backlog, lp, s, sz, my, lpf, budget, res, 
-                        timedout, already >>
+                        sdReturned, expSD, lateCall, expFF, consumed, evlog, 
+                        stack, nt, ns, t, n, s1, ft, backlog, lp, s, sz, my, 
+                        lpf, budget, res, timedout, already >>
 
 D_e2 == /\ pc[Worker] = "D_e2"
         /\ lp' = pending
@@ -663,9 +715,9 @@ D_e2 == /\ pc[Worker] = "D_e2"
                         shm, wWaiting, wSignalled, fWaiting, fSignalled, 
                         workerDone, joined, batches, inExport, overlap, 
                         returned, fate, ffSnap, ffOK, ffRes, sdSnap, sdCalled, 
-                        sdReturned, expSD, lateCall, expFF, stack, nt, ns, t, 
-                        n, s1, ft, backlog, s, sz, my, lpf, budget, res, 
-                        timedout, already >>
+                        sdReturned, expSD, lateCall, expFF, consumed, evlog, 
+                        stack, nt, ns, t, n, s1, ft, backlog, s, sz, my, lpf, 
+                        budget, res, timedout, already >>
 
 D_e3 == /\ pc[Worker] = "D_e3"
         /\ IF lp <= notified
@@ -675,9 +727,9 @@ D_e3 == /\ pc[Worker] = "D_e3"
                         shm, wWaiting, wSignalled, fWaiting, fSignalled, 
                         workerDone, joined, batches, inExport, overlap, 
                         returned, fate, ffSnap, ffOK, ffRes, sdSnap, sdCalled, 
-                        sdReturned, expSD, lateCall, expFF, stack, nt, ns, t, 
-                        n, s1, ft, backlog, lp, s, sz, my, lpf, budget, res, 
-                        timedout, already >>
+                        sdReturned, expSD, lateCall, expFF, consumed, evlog, 
+                        stack, nt, ns, t, n, s1, ft, backlog, lp, s, sz, my, 
+                        lpf, budget, res, timedout, already >>
 
 D_export == /\ pc[Worker] = "D_export"
             /\ stack' = [stack EXCEPT ![Worker] = << [ procedure |->  "Export",
@@ -699,8 +751,8 @@ D_export == /\ pc[Worker] = "D_export"
                             fSignalled, workerDone, joined, batches, inExport, 
                             overlap, returned, fate, ffSnap, ffOK, ffRes, 
                             sdSnap, sdCalled, sdReturned, expSD, lateCall, 
-                            expFF, nt, ns, lp, s, sz, my, lpf, budget, res, 
-                            timedout, already >>
+                            expFF, consumed, evlog, nt, ns, lp, s, sz, my, lpf, 
+                            budget, res, timedout, already >>
 
 D_next == /\ pc[Worker] = "D_next"
           /\ pc' = [pc EXCEPT ![Worker] = "D_e1"]
@@ -708,9 +760,10 @@ D_next == /\ pc[Worker] = "D_next"
                           shm, wWaiting, wSignalled, fWaiting, fSignalled, 
                           workerDone, joined, batches, inExport, overlap, 
                           returned, fate, ffSnap, ffOK, ffRes, sdSnap, 
-                          sdCalled, sdReturned, expSD, lateCall, expFF, stack, 
-                          nt, ns, t, n, s1, ft, backlog, lp, s, sz, my, lpf, 
-                          budget, res, timedout, already >>
+                          sdCalled, sdReturned, expSD, lateCall, expFF, 
+                          consumed, evlog, stack, nt, ns, t, n, s1, ft, 
+                          backlog, lp, s, sz, my, lpf, budget, res, timedout, 
+                          already >>
 
 W_exit == /\ pc[Worker] = "W_exit"
           /\ workerDone' = TRUE
@@ -719,9 +772,9 @@ W_exit == /\ pc[Worker] = "W_exit"
                           shm, wWaiting, wSignalled, fWaiting, fSignalled, 
                           joined, batches, inExport, overlap, returned, fate, 
                           ffSnap, ffOK, ffRes, sdSnap, sdCalled, sdReturned, 
-                          expSD, lateCall, expFF, stack, nt, ns, t, n, s1, ft, 
-                          backlog, lp, s, sz, my, lpf, budget, res, timedout, 
-                          already >>
+                          expSD, lateCall, expFF, consumed, evlog, stack, nt, 
+                          ns, t, n, s1, ft, backlog, lp, s, sz, my, lpf, 
+                          budget, res, timedout, already >>
 
 worker == W_pred1 \/ W_pred2 \/ W_block \/ W_wake \/ W_clear \/ W_chk
              \/ W_export \/ W_next \/ D_e1 \/ D_e2 \/ D_e3 \/ D_export
@@ -736,32 +789,46 @@ P_loop(self) == /\ pc[self] = "P_loop"
                                 fWaiting, fSignalled, workerDone, joined, 
                                 batches, inExport, overlap, returned, fate, 
                                 ffSnap, ffOK, ffRes, sdSnap, sdCalled, 
-                                sdReturned, expSD, lateCall, expFF, stack, nt, 
-                                ns, t, n, s1, ft, backlog, lp, s, sz, my, lpf, 
-                                budget, res, timedout, already >>
+                                sdReturned, expSD, lateCall, expFF, consumed, 
+                                evlog, stack, nt, ns, t, n, s1, ft, backlog, 
+                                lp, s, sz, my, lpf, budget, res, timedout, 
+                                already >>
 
 P_chk(self) == /\ pc[self] = "P_chk"
                /\ IF isShutdown
-                     THEN /\ fate' = fate @@ (Rec(self, s[self]) :> "discarded")
+                     THEN /\ IF Hist
+                                THEN /\ evlog' = evlog \o (<<[e |-> "OnEndCall", p |-> self, s |-> s[self], cons |-> consumed],
+                                                             [e |-> "OnEndRet", p |-> self, s |-> s[self], fate |-> "discarded", others |-> 0]>>)
+                                ELSE /\ TRUE
+                                     /\ evlog' = evlog
+                          /\ fate' = fate @@ (Rec(self, s[self]) :> "discarded")
                           /\ returned' = (returned \cup {Rec(self, s[self])})
                           /\ s' = [s EXCEPT ![self] = s[self] + 1]
                           /\ pc' = [pc EXCEPT ![self] = "P_loop"]
-                     ELSE /\ pc' = [pc EXCEPT ![self] = "P_add"]
+                     ELSE /\ IF Hist
+                                THEN /\ evlog' = evlog \o (<<[e |-> "OnEndCall", p |-> self, s |-> s[self], cons |-> consumed]>>)
+                                ELSE /\ TRUE
+                                     /\ evlog' = evlog
+                          /\ pc' = [pc EXCEPT ![self] = "P_add"]
                           /\ UNCHANGED << returned, fate, s >>
                /\ UNCHANGED << queue, isShutdown, forceWake, pending, notified, 
                                ffm, shm, wWaiting, wSignalled, fWaiting, 
                                fSignalled, workerDone, joined, batches, 
                                inExport, overlap, ffSnap, ffOK, ffRes, sdSnap, 
                                sdCalled, sdReturned, expSD, lateCall, expFF, 
-                               stack, nt, ns, t, n, s1, ft, backlog, lp, sz, 
-                               my, lpf, budget, res, timedout, already >>
+                               consumed, stack, nt, ns, t, n, s1, ft, backlog, 
+                               lp, sz, my, lpf, budget, res, timedout, already >>
 
 P_add(self) == /\ pc[self] = "P_add"
                /\ IF Len(queue) < QMax
                      THEN /\ queue' = Append(queue, Rec(self, s[self]))
                           /\ pc' = [pc EXCEPT ![self] = "P_size"]
-                          /\ UNCHANGED << returned, fate, s >>
-                     ELSE /\ fate' = fate @@ (Rec(self, s[self]) :> "dropped")
+                          /\ UNCHANGED << returned, fate, evlog, s >>
+                     ELSE /\ IF Hist
+                                THEN /\ evlog' = evlog \o (<<[e |-> "OnEndRet", p |-> self, s |-> s[self], fate |-> "dropped", others |-> 0]>>)
+                                ELSE /\ TRUE
+                                     /\ evlog' = evlog
+                          /\ fate' = fate @@ (Rec(self, s[self]) :> "dropped")
                           /\ returned' = (returned \cup {Rec(self, s[self])})
                           /\ s' = [s EXCEPT ![self] = s[self] + 1]
                           /\ pc' = [pc EXCEPT ![self] = "P_loop"]
@@ -770,26 +837,30 @@ P_add(self) == /\ pc[self] = "P_add"
                                shm, wWaiting, wSignalled, fWaiting, fSignalled, 
                                workerDone, joined, batches, inExport, overlap, 
                                ffSnap, ffOK, ffRes, sdSnap, sdCalled, 
-                               sdReturned, expSD, lateCall, expFF, stack, nt, 
-                               ns, t, n, s1, ft, backlog, lp, sz, my, lpf, 
-                               budget, res, timedout, already >>
+                               sdReturned, expSD, lateCall, expFF, consumed, 
+                               stack, nt, ns, t, n, s1, ft, backlog, lp, sz, 
+                               my, lpf, budget, res, timedout, already >>
 
 P_size(self) == /\ pc[self] = "P_size"
                 /\ sz' = [sz EXCEPT ![self] = Len(queue)]
                 /\ IF ~(sz'[self] >= QMax \div 2 \/ sz'[self] >= BMax)
-                      THEN /\ returned' = (returned \cup {Rec(self, s[self])})
+                      THEN /\ IF Hist
+                                 THEN /\ evlog' = evlog \o (<<[e |-> "OnEndRet", p |-> self, s |-> s[self], fate |-> "queued", others |-> 0]>>)
+                                 ELSE /\ TRUE
+                                      /\ evlog' = evlog
+                           /\ returned' = (returned \cup {Rec(self, s[self])})
                            /\ s' = [s EXCEPT ![self] = s[self] + 1]
                            /\ pc' = [pc EXCEPT ![self] = "P_loop"]
                       ELSE /\ pc' = [pc EXCEPT ![self] = "P_wake"]
-                           /\ UNCHANGED << returned, s >>
+                           /\ UNCHANGED << returned, evlog, s >>
                 /\ UNCHANGED << queue, isShutdown, forceWake, pending, 
                                 notified, ffm, shm, wWaiting, wSignalled, 
                                 fWaiting, fSignalled, workerDone, joined, 
                                 batches, inExport, overlap, fate, ffSnap, ffOK, 
                                 ffRes, sdSnap, sdCalled, sdReturned, expSD, 
-                                lateCall, expFF, stack, nt, ns, t, n, s1, ft, 
-                                backlog, lp, my, lpf, budget, res, timedout, 
-                                already >>
+                                lateCall, expFF, consumed, stack, nt, ns, t, n, 
+                                s1, ft, backlog, lp, my, lpf, budget, res, 
+                                timedout, already >>
 
 P_wake(self) == /\ pc[self] = "P_wake"
                 /\ IF Variant = "log"
@@ -802,14 +873,19 @@ P_wake(self) == /\ pc[self] = "P_wake"
                                 workerDone, joined, batches, inExport, overlap, 
                                 returned, fate, ffSnap, ffOK, ffRes, sdSnap, 
                                 sdCalled, sdReturned, expSD, lateCall, expFF, 
-                                stack, nt, ns, t, n, s1, ft, backlog, lp, s, 
-                                sz, my, lpf, budget, res, timedout, already >>
+                                consumed, evlog, stack, nt, ns, t, n, s1, ft, 
+                                backlog, lp, s, sz, my, lpf, budget, res, 
+                                timedout, already >>
 
 P_notify(self) == /\ pc[self] = "P_notify"
                   /\ IF wWaiting
                         THEN /\ wSignalled' = TRUE
                         ELSE /\ TRUE
                              /\ UNCHANGED wSignalled
+                  /\ IF Hist
+                        THEN /\ evlog' = evlog \o (<<[e |-> "OnEndRet", p |-> self, s |-> s[self], fate |-> "queued", others |-> 0]>>)
+                        ELSE /\ TRUE
+                             /\ evlog' = evlog
                   /\ returned' = (returned \cup {Rec(self, s[self])})
                   /\ s' = [s EXCEPT ![self] = s[self] + 1]
                   /\ pc' = [pc EXCEPT ![self] = "P_loop"]
@@ -818,9 +894,9 @@ P_notify(self) == /\ pc[self] = "P_notify"
                                   fSignalled, workerDone, joined, batches, 
                                   inExport, overlap, fate, ffSnap, ffOK, ffRes, 
                                   sdSnap, sdCalled, sdReturned, expSD, 
-                                  lateCall, expFF, stack, nt, ns, t, n, s1, ft, 
-                                  backlog, lp, sz, my, lpf, budget, res, 
-                                  timedout, already >>
+                                  lateCall, expFF, consumed, stack, nt, ns, t, 
+                                  n, s1, ft, backlog, lp, sz, my, lpf, budget, 
+                                  res, timedout, already >>
 
 prod(self) == P_loop(self) \/ P_chk(self) \/ P_add(self) \/ P_size(self)
                  \/ P_wake(self) \/ P_notify(self)
@@ -829,16 +905,25 @@ F_chk(self) == /\ pc[self] = "F_chk"
                /\ ffSnap' = [ffSnap EXCEPT ![self] = returned]
                /\ IF isShutdown
                      THEN /\ ffRes' = [ffRes EXCEPT ![self] = "false"]
+                          /\ IF Hist
+                                THEN /\ evlog' = evlog \o (<<[e |-> "FFCall", f |-> self], [e |-> "FFRet", f |-> self, r |-> FALSE]>>)
+                                ELSE /\ TRUE
+                                     /\ evlog' = evlog
                           /\ pc' = [pc EXCEPT ![self] = "F_done"]
                      ELSE /\ ffRes' = [ffRes EXCEPT ![self] = "called"]
+                          /\ IF Hist
+                                THEN /\ evlog' = evlog \o (<<[e |-> "FFCall", f |-> self]>>)
+                                ELSE /\ TRUE
+                                     /\ evlog' = evlog
                           /\ pc' = [pc EXCEPT ![self] = "F_lock"]
                /\ UNCHANGED << queue, isShutdown, forceWake, pending, notified, 
                                ffm, shm, wWaiting, wSignalled, fWaiting, 
                                fSignalled, workerDone, joined, batches, 
                                inExport, overlap, returned, fate, ffOK, sdSnap, 
                                sdCalled, sdReturned, expSD, lateCall, expFF, 
-                               stack, nt, ns, t, n, s1, ft, backlog, lp, s, sz, 
-                               my, lpf, budget, res, timedout, already >>
+                               consumed, stack, nt, ns, t, n, s1, ft, backlog, 
+                               lp, s, sz, my, lpf, budget, res, timedout, 
+                               already >>
 
 F_lock(self) == /\ pc[self] = "F_lock"
                 /\ ffm = -1
@@ -849,9 +934,9 @@ F_lock(self) == /\ pc[self] = "F_lock"
                                 fSignalled, workerDone, joined, batches, 
                                 inExport, overlap, returned, fate, ffSnap, 
                                 ffOK, ffRes, sdSnap, sdCalled, sdReturned, 
-                                expSD, lateCall, expFF, stack, nt, ns, t, n, 
-                                s1, ft, backlog, lp, s, sz, my, lpf, budget, 
-                                res, timedout, already >>
+                                expSD, lateCall, expFF, consumed, evlog, stack, 
+                                nt, ns, t, n, s1, ft, backlog, lp, s, sz, my, 
+                                lpf, budget, res, timedout, already >>
 
 F_ticket(self) == /\ pc[self] = "F_ticket"
                   /\ pending' = pending + 1
@@ -862,9 +947,9 @@ F_ticket(self) == /\ pc[self] = "F_ticket"
                                   fSignalled, workerDone, joined, batches, 
                                   inExport, overlap, returned, fate, ffSnap, 
                                   ffOK, ffRes, sdSnap, sdCalled, sdReturned, 
-                                  expSD, lateCall, expFF, stack, nt, ns, t, n, 
-                                  s1, ft, backlog, lp, s, sz, lpf, budget, res, 
-                                  timedout, already >>
+                                  expSD, lateCall, expFF, consumed, evlog, 
+                                  stack, nt, ns, t, n, s1, ft, backlog, lp, s, 
+                                  sz, lpf, budget, res, timedout, already >>
 
 F_loop(self) == /\ pc[self] = "F_loop"
                 /\ IF ~res[self] /\ budget[self] # 0
@@ -877,9 +962,9 @@ F_loop(self) == /\ pc[self] = "F_loop"
                                 fWaiting, fSignalled, workerDone, joined, 
                                 batches, inExport, overlap, returned, fate, 
                                 ffSnap, ffOK, ffRes, sdSnap, sdCalled, 
-                                sdReturned, expSD, lateCall, expFF, stack, nt, 
-                                ns, t, n, s1, ft, backlog, lp, s, sz, my, lpf, 
-                                budget, res, already >>
+                                sdReturned, expSD, lateCall, expFF, consumed, 
+                                evlog, stack, nt, ns, t, n, s1, ft, backlog, 
+                                lp, s, sz, my, lpf, budget, res, already >>
 
 BC1(self) == /\ pc[self] = "BC1"
              /\ IF isShutdown
@@ -892,8 +977,9 @@ BC1(self) == /\ pc[self] = "BC1"
                              fSignalled, workerDone, joined, batches, inExport, 
                              overlap, returned, fate, ffSnap, ffOK, ffRes, 
                              sdSnap, sdCalled, sdReturned, expSD, lateCall, 
-                             expFF, stack, nt, ns, t, n, s1, ft, backlog, lp, 
-                             s, sz, my, lpf, budget, timedout, already >>
+                             expFF, consumed, evlog, stack, nt, ns, t, n, s1, 
+                             ft, backlog, lp, s, sz, my, lpf, budget, timedout, 
+                             already >>
 
 BC2(self) == /\ pc[self] = "BC2"
              /\ lpf' = [lpf EXCEPT ![self] = pending]
@@ -903,8 +989,9 @@ BC2(self) == /\ pc[self] = "BC2"
                              fSignalled, workerDone, joined, batches, inExport, 
                              overlap, returned, fate, ffSnap, ffOK, ffRes, 
                              sdSnap, sdCalled, sdReturned, expSD, lateCall, 
-                             expFF, stack, nt, ns, t, n, s1, ft, backlog, lp, 
-                             s, sz, my, budget, res, timedout, already >>
+                             expFF, consumed, evlog, stack, nt, ns, t, n, s1, 
+                             ft, backlog, lp, s, sz, my, budget, res, timedout, 
+                             already >>
 
 BC3(self) == /\ pc[self] = "BC3"
              /\ IF lpf[self] > notified
@@ -915,8 +1002,9 @@ BC3(self) == /\ pc[self] = "BC3"
                              fSignalled, workerDone, joined, batches, inExport, 
                              overlap, returned, fate, ffSnap, ffOK, ffRes, 
                              sdSnap, sdCalled, sdReturned, expSD, lateCall, 
-                             expFF, stack, nt, ns, t, n, s1, ft, backlog, lp, 
-                             s, sz, my, lpf, budget, res, timedout, already >>
+                             expFF, consumed, evlog, stack, nt, ns, t, n, s1, 
+                             ft, backlog, lp, s, sz, my, lpf, budget, res, 
+                             timedout, already >>
 
 BC4(self) == /\ pc[self] = "BC4"
              /\ IF Variant = "span"
@@ -929,8 +1017,9 @@ BC4(self) == /\ pc[self] = "BC4"
                              workerDone, joined, batches, inExport, overlap, 
                              returned, fate, ffSnap, ffOK, ffRes, sdSnap, 
                              sdCalled, sdReturned, expSD, lateCall, expFF, 
-                             stack, nt, ns, t, n, s1, ft, backlog, lp, s, sz, 
-                             my, lpf, budget, res, timedout, already >>
+                             consumed, evlog, stack, nt, ns, t, n, s1, ft, 
+                             backlog, lp, s, sz, my, lpf, budget, res, 
+                             timedout, already >>
 
 BC5(self) == /\ pc[self] = "BC5"
              /\ IF wWaiting
@@ -943,8 +1032,9 @@ BC5(self) == /\ pc[self] = "BC5"
                              workerDone, joined, batches, inExport, overlap, 
                              returned, fate, ffSnap, ffOK, ffRes, sdSnap, 
                              sdCalled, sdReturned, expSD, lateCall, expFF, 
-                             stack, nt, ns, t, n, s1, ft, backlog, lp, s, sz, 
-                             my, lpf, budget, res, timedout, already >>
+                             consumed, evlog, stack, nt, ns, t, n, s1, ft, 
+                             backlog, lp, s, sz, my, lpf, budget, res, 
+                             timedout, already >>
 
 BC6(self) == /\ pc[self] = "BC6"
              /\ IF notified >= my[self]
@@ -957,8 +1047,9 @@ BC6(self) == /\ pc[self] = "BC6"
                              fSignalled, workerDone, joined, batches, inExport, 
                              overlap, returned, fate, ffSnap, ffOK, ffRes, 
                              sdSnap, sdCalled, sdReturned, expSD, lateCall, 
-                             expFF, stack, nt, ns, t, n, s1, ft, backlog, lp, 
-                             s, sz, my, lpf, budget, timedout, already >>
+                             expFF, consumed, evlog, stack, nt, ns, t, n, s1, 
+                             ft, backlog, lp, s, sz, my, lpf, budget, timedout, 
+                             already >>
 
 BC7(self) == /\ pc[self] = "BC7"
              /\ IF timedout[self]
@@ -969,8 +1060,9 @@ BC7(self) == /\ pc[self] = "BC7"
                              fSignalled, workerDone, joined, batches, inExport, 
                              overlap, returned, fate, ffSnap, ffOK, ffRes, 
                              sdSnap, sdCalled, sdReturned, expSD, lateCall, 
-                             expFF, stack, nt, ns, t, n, s1, ft, backlog, lp, 
-                             s, sz, my, lpf, budget, res, timedout, already >>
+                             expFF, consumed, evlog, stack, nt, ns, t, n, s1, 
+                             ft, backlog, lp, s, sz, my, lpf, budget, res, 
+                             timedout, already >>
 
 F_block(self) == /\ pc[self] = "F_block"
                  /\ ffm' = -1
@@ -982,9 +1074,9 @@ F_block(self) == /\ pc[self] = "F_block"
                                  workerDone, joined, batches, inExport, 
                                  overlap, returned, fate, ffSnap, ffOK, ffRes, 
                                  sdSnap, sdCalled, sdReturned, expSD, lateCall, 
-                                 expFF, stack, nt, ns, t, n, s1, ft, backlog, 
-                                 lp, s, sz, my, lpf, budget, res, timedout, 
-                                 already >>
+                                 expFF, consumed, evlog, stack, nt, ns, t, n, 
+                                 s1, ft, backlog, lp, s, sz, my, lpf, budget, 
+                                 res, timedout, already >>
 
 F_wake(self) == /\ pc[self] = "F_wake"
                 /\ \/ /\ self \in fSignalled
@@ -999,8 +1091,9 @@ F_wake(self) == /\ pc[self] = "F_wake"
                                 workerDone, joined, batches, inExport, overlap, 
                                 returned, fate, ffSnap, ffOK, ffRes, sdSnap, 
                                 sdCalled, sdReturned, expSD, lateCall, expFF, 
-                                stack, nt, ns, t, n, s1, ft, backlog, lp, s, 
-                                sz, my, lpf, budget, res, already >>
+                                consumed, evlog, stack, nt, ns, t, n, s1, ft, 
+                                backlog, lp, s, sz, my, lpf, budget, res, 
+                                already >>
 
 F_relock(self) == /\ pc[self] = "F_relock"
                   /\ ffm = -1
@@ -1011,9 +1104,10 @@ F_relock(self) == /\ pc[self] = "F_relock"
                                   fWaiting, fSignalled, workerDone, joined, 
                                   batches, inExport, overlap, returned, fate, 
                                   ffSnap, ffOK, ffRes, sdSnap, sdCalled, 
-                                  sdReturned, expSD, lateCall, expFF, stack, 
-                                  nt, ns, t, n, s1, ft, backlog, lp, s, sz, my, 
-                                  lpf, budget, res, timedout, already >>
+                                  sdReturned, expSD, lateCall, expFF, consumed, 
+                                  evlog, stack, nt, ns, t, n, s1, ft, backlog, 
+                                  lp, s, sz, my, lpf, budget, res, timedout, 
+                                  already >>
 
 F_eval(self) == /\ pc[self] = "F_eval"
                 /\ IF timedout[self] /\ budget[self] # Inf
@@ -1026,21 +1120,25 @@ F_eval(self) == /\ pc[self] = "F_eval"
                                 fWaiting, fSignalled, workerDone, joined, 
                                 batches, inExport, overlap, returned, fate, 
                                 ffSnap, ffOK, ffRes, sdSnap, sdCalled, 
-                                sdReturned, expSD, lateCall, expFF, stack, nt, 
-                                ns, t, n, s1, ft, backlog, lp, s, sz, my, lpf, 
-                                res, timedout, already >>
+                                sdReturned, expSD, lateCall, expFF, consumed, 
+                                evlog, stack, nt, ns, t, n, s1, ft, backlog, 
+                                lp, s, sz, my, lpf, res, timedout, already >>
 
 F_ret(self) == /\ pc[self] = "F_ret"
                /\ ffRes' = [ffRes EXCEPT ![self] = IF notified >= my[self] THEN "true" ELSE "false"]
+               /\ IF Hist
+                     THEN /\ evlog' = evlog \o (<<[e |-> "FFRet", f |-> self, r |-> (notified >= my[self])]>>)
+                     ELSE /\ TRUE
+                          /\ evlog' = evlog
                /\ ffm' = -1
                /\ pc' = [pc EXCEPT ![self] = "F_done"]
                /\ UNCHANGED << queue, isShutdown, forceWake, pending, notified, 
                                shm, wWaiting, wSignalled, fWaiting, fSignalled, 
                                workerDone, joined, batches, inExport, overlap, 
                                returned, fate, ffSnap, ffOK, sdSnap, sdCalled, 
-                               sdReturned, expSD, lateCall, expFF, stack, nt, 
-                               ns, t, n, s1, ft, backlog, lp, s, sz, my, lpf, 
-                               budget, res, timedout, already >>
+                               sdReturned, expSD, lateCall, expFF, consumed, 
+                               stack, nt, ns, t, n, s1, ft, backlog, lp, s, sz, 
+                               my, lpf, budget, res, timedout, already >>
 
 F_done(self) == /\ pc[self] = "F_done"
                 /\ TRUE
@@ -1050,9 +1148,10 @@ F_done(self) == /\ pc[self] = "F_done"
                                 fWaiting, fSignalled, workerDone, joined, 
                                 batches, inExport, overlap, returned, fate, 
                                 ffSnap, ffOK, ffRes, sdSnap, sdCalled, 
-                                sdReturned, expSD, lateCall, expFF, stack, nt, 
-                                ns, t, n, s1, ft, backlog, lp, s, sz, my, lpf, 
-                                budget, res, timedout, already >>
+                                sdReturned, expSD, lateCall, expFF, consumed, 
+                                evlog, stack, nt, ns, t, n, s1, ft, backlog, 
+                                lp, s, sz, my, lpf, budget, res, timedout, 
+                                already >>
 
 flush(self) == F_chk(self) \/ F_lock(self) \/ F_ticket(self)
                   \/ F_loop(self) \/ BC1(self) \/ BC2(self) \/ BC3(self)
@@ -1066,15 +1165,19 @@ S_call(self) == /\ pc[self] = "S_call"
                            /\ sdCalled' = TRUE
                       ELSE /\ TRUE
                            /\ UNCHANGED << sdSnap, sdCalled >>
+                /\ IF Hist
+                      THEN /\ evlog' = evlog \o (<<[e |-> "SDCall", s |-> self]>>)
+                      ELSE /\ TRUE
+                           /\ evlog' = evlog
                 /\ pc' = [pc EXCEPT ![self] = "S_lock"]
                 /\ UNCHANGED << queue, isShutdown, forceWake, pending, 
                                 notified, ffm, shm, wWaiting, wSignalled, 
                                 fWaiting, fSignalled, workerDone, joined, 
                                 batches, inExport, overlap, returned, fate, 
                                 ffSnap, ffOK, ffRes, sdReturned, expSD, 
-                                lateCall, expFF, stack, nt, ns, t, n, s1, ft, 
-                                backlog, lp, s, sz, my, lpf, budget, res, 
-                                timedout, already >>
+                                lateCall, expFF, consumed, stack, nt, ns, t, n, 
+                                s1, ft, backlog, lp, s, sz, my, lpf, budget, 
+                                res, timedout, already >>
 
 S_lock(self) == /\ pc[self] = "S_lock"
                 /\ shm = -1
@@ -1085,9 +1188,9 @@ S_lock(self) == /\ pc[self] = "S_lock"
                                 fSignalled, workerDone, joined, batches, 
                                 inExport, overlap, returned, fate, ffSnap, 
                                 ffOK, ffRes, sdSnap, sdCalled, sdReturned, 
-                                expSD, lateCall, expFF, stack, nt, ns, t, n, 
-                                s1, ft, backlog, lp, s, sz, my, lpf, budget, 
-                                res, timedout, already >>
+                                expSD, lateCall, expFF, consumed, evlog, stack, 
+                                nt, ns, t, n, s1, ft, backlog, lp, s, sz, my, 
+                                lpf, budget, res, timedout, already >>
 
 S_xchg(self) == /\ pc[self] = "S_xchg"
                 /\ already' = [already EXCEPT ![self] = isShutdown]
@@ -1098,8 +1201,9 @@ S_xchg(self) == /\ pc[self] = "S_xchg"
                                 workerDone, joined, batches, inExport, overlap, 
                                 returned, fate, ffSnap, ffOK, ffRes, sdSnap, 
                                 sdCalled, sdReturned, expSD, lateCall, expFF, 
-                                stack, nt, ns, t, n, s1, ft, backlog, lp, s, 
-                                sz, my, lpf, budget, res, timedout >>
+                                consumed, evlog, stack, nt, ns, t, n, s1, ft, 
+                                backlog, lp, s, sz, my, lpf, budget, res, 
+                                timedout >>
 
 S_join0(self) == /\ pc[self] = "S_join0"
                  /\ IF ~joined
@@ -1110,9 +1214,10 @@ S_join0(self) == /\ pc[self] = "S_join0"
                                  fWaiting, fSignalled, workerDone, joined, 
                                  batches, inExport, overlap, returned, fate, 
                                  ffSnap, ffOK, ffRes, sdSnap, sdCalled, 
-                                 sdReturned, expSD, lateCall, expFF, stack, nt, 
-                                 ns, t, n, s1, ft, backlog, lp, s, sz, my, lpf, 
-                                 budget, res, timedout, already >>
+                                 sdReturned, expSD, lateCall, expFF, consumed, 
+                                 evlog, stack, nt, ns, t, n, s1, ft, backlog, 
+                                 lp, s, sz, my, lpf, budget, res, timedout, 
+                                 already >>
 
 S_wake(self) == /\ pc[self] = "S_wake"
                 /\ forceWake' = TRUE
@@ -1122,8 +1227,9 @@ S_wake(self) == /\ pc[self] = "S_wake"
                                 workerDone, joined, batches, inExport, overlap, 
                                 returned, fate, ffSnap, ffOK, ffRes, sdSnap, 
                                 sdCalled, sdReturned, expSD, lateCall, expFF, 
-                                stack, nt, ns, t, n, s1, ft, backlog, lp, s, 
-                                sz, my, lpf, budget, res, timedout, already >>
+                                consumed, evlog, stack, nt, ns, t, n, s1, ft, 
+                                backlog, lp, s, sz, my, lpf, budget, res, 
+                                timedout, already >>
 
 S_notify(self) == /\ pc[self] = "S_notify"
                   /\ IF wWaiting
@@ -1136,9 +1242,9 @@ S_notify(self) == /\ pc[self] = "S_notify"
                                   fSignalled, workerDone, joined, batches, 
                                   inExport, overlap, returned, fate, ffSnap, 
                                   ffOK, ffRes, sdSnap, sdCalled, sdReturned, 
-                                  expSD, lateCall, expFF, stack, nt, ns, t, n, 
-                                  s1, ft, backlog, lp, s, sz, my, lpf, budget, 
-                                  res, timedout, already >>
+                                  expSD, lateCall, expFF, consumed, evlog, 
+                                  stack, nt, ns, t, n, s1, ft, backlog, lp, s, 
+                                  sz, my, lpf, budget, res, timedout, already >>
 
 S_join(self) == /\ pc[self] = "S_join"
                 /\ workerDone
@@ -1149,36 +1255,45 @@ S_join(self) == /\ pc[self] = "S_join"
                                 fWaiting, fSignalled, workerDone, batches, 
                                 inExport, overlap, returned, fate, ffSnap, 
                                 ffOK, ffRes, sdSnap, sdCalled, sdReturned, 
-                                expSD, lateCall, expFF, stack, nt, ns, t, n, 
-                                s1, ft, backlog, lp, s, sz, my, lpf, budget, 
-                                res, timedout, already >>
+                                expSD, lateCall, expFF, consumed, evlog, stack, 
+                                nt, ns, t, n, s1, ft, backlog, lp, s, sz, my, 
+                                lpf, budget, res, timedout, already >>
 
 S_exp(self) == /\ pc[self] = "S_exp"
                /\ IF ~already[self]
                      THEN /\ expSD' = expSD + 1
                           /\ lateCall' = (lateCall \/ sdReturned)
+                          /\ IF Hist
+                                THEN /\ evlog' = evlog \o (<<[e |-> "ExpSD"]>>)
+                                ELSE /\ TRUE
+                                     /\ evlog' = evlog
                      ELSE /\ TRUE
-                          /\ UNCHANGED << expSD, lateCall >>
+                          /\ UNCHANGED << expSD, lateCall, evlog >>
                /\ pc' = [pc EXCEPT ![self] = "S_ret"]
                /\ UNCHANGED << queue, isShutdown, forceWake, pending, notified, 
                                ffm, shm, wWaiting, wSignalled, fWaiting, 
                                fSignalled, workerDone, joined, batches, 
                                inExport, overlap, returned, fate, ffSnap, ffOK, 
                                ffRes, sdSnap, sdCalled, sdReturned, expFF, 
-                               stack, nt, ns, t, n, s1, ft, backlog, lp, s, sz, 
-                               my, lpf, budget, res, timedout, already >>
+                               consumed, stack, nt, ns, t, n, s1, ft, backlog, 
+                               lp, s, sz, my, lpf, budget, res, timedout, 
+                               already >>
 
 S_ret(self) == /\ pc[self] = "S_ret"
                /\ shm' = -1
                /\ sdReturned' = TRUE
+               /\ IF Hist
+                     THEN /\ evlog' = evlog \o (<<[e |-> "SDRet", s |-> self]>>)
+                     ELSE /\ TRUE
+                          /\ evlog' = evlog
                /\ pc' = [pc EXCEPT ![self] = "Done"]
                /\ UNCHANGED << queue, isShutdown, forceWake, pending, notified, 
                                ffm, wWaiting, wSignalled, fWaiting, fSignalled, 
                                workerDone, joined, batches, inExport, overlap, 
                                returned, fate, ffSnap, ffOK, ffRes, sdSnap, 
-                               sdCalled, expSD, lateCall, expFF, stack, nt, ns, 
-                               t, n, s1, ft, backlog, lp, s, sz, my, lpf, 
-                               budget, res, timedout, already >>
+                               sdCalled, expSD, lateCall, expFF, consumed, 
+                               stack, nt, ns, t, n, s1, ft, backlog, lp, s, sz, 
+                               my, lpf, budget, res, timedout, already >>
 
 shut(self) == S_call(self) \/ S_lock(self) \/ S_xchg(self) \/ S_join0(self)
                  \/ S_wake(self) \/ S_notify(self) \/ S_join(self)
@@ -1233,4 +1348,8 @@ Safety == ExportOnce /\ Order /\ NoOverlap /\ NoLateCall /\ ShutdownOnce /\ Flus
 FlushersDone == \A f \in Flushers : pc[f] = "Done"
 ShutsDone == \A sh \in Shuts : pc[sh] = "Done"
 Termination2 == <>(FlushersDone /\ ShutsDone)
+\* generation: print the Level-A event log of every finished behaviour (fed to BatchMonitor.tla: a rejection
+\* there means the monitor is stricter than the design - a broken check, never a violation)
+AllDone == \A q \in ProcSet : pc[q] = "Done"
+EmitLog == AllDone => PrintT(<<"BEH", ToJson(evlog)>>)
 =============================================================================
